@@ -1049,8 +1049,41 @@ func ruleP05Propagate(p *Prog, r *Report) {
 	for _, f := range p.commandRuns() {
 		runs[f] = true
 	}
+	// a forwarding function literal handed to a module function as a callback (pause's periodic
+	// update handed to WithRepeat): the call of that parameter is a source in the receiver
+	cbParams := map[*ssa.Parameter]bool{}
+	registerCallback := func(g *ssa.Function) {
+		parent := g.Parent()
+		if parent == nil {
+			return
+		}
+		eachInstr(parent, func(in ssa.Instruction) {
+			mc, ok := in.(*ssa.MakeClosure)
+			if !ok || mc.Fn != ssa.Value(g) {
+				return
+			}
+			for _, ref := range *mc.Referrers() {
+				site, isCall := ref.(ssa.CallInstruction)
+				if !isCall || site.Common().Value == ssa.Value(mc) {
+					continue
+				}
+				w := rawStaticCallee(site)
+				if w == nil || !p.inModFn(w) {
+					continue
+				}
+				for i, a := range site.Common().Args {
+					if a == ssa.Value(mc) && i < len(w.Params) {
+						cbParams[w.Params[i]] = true
+					}
+				}
+			}
+		})
+	}
 	isSourceCall := func(c ssa.CallInstruction) bool {
 		if c.Common().IsInvoke() && c.Common().Method.Name() == "ReconcileFile" {
+			return true
+		}
+		if prm, ok := c.Common().Value.(*ssa.Parameter); ok && cbParams[prm] {
 			return true
 		}
 		if g := funcLiteralOrStatic(c); g != nil && forwarders[originFn(g)] {
@@ -1084,6 +1117,7 @@ func ruleP05Propagate(p *Prog, r *Report) {
 				r.check(msg == "", rule, key, p.instrPos(c), "reconcile error propagated: "+how, "reconcile error not propagated: "+msg)
 				if errResultIndex(f.Signature) >= 0 && !runs[f] {
 					forwarders[originFn(f)] = true
+					registerCallback(f)
 				}
 			})
 		}
@@ -1091,7 +1125,7 @@ func ruleP05Propagate(p *Prog, r *Report) {
 			break
 		}
 	}
-	r.floor(rule, 7)
+	r.floor(rule, 9)
 }
 
 func funcLiteralOrStatic(c ssa.CallInstruction) *ssa.Function {
@@ -1110,6 +1144,9 @@ func calleeLabel(c ssa.CallInstruction) string {
 	}
 	if g := funcLiteralOrStatic(c); g != nil {
 		return fnName(g)
+	}
+	if prm, ok := c.Common().Value.(*ssa.Parameter); ok {
+		return "callback:" + prm.Name()
 	}
 	return "dynamic"
 }
